@@ -108,3 +108,22 @@ Print Assumptions C06_login_record.
 Print Assumptions C06_login_oversize_rejected.
 Print Assumptions C06_mask_bit_position.
 Print Assumptions C06_lookup_total.
+Print Assumptions C06_done.
+Print Assumptions C06_loginack.
+Print Assumptions C06_msg.
+Print Assumptions C06_returnstatus.
+Print Assumptions C06_error.
+Print Assumptions C06_language.
+Print Assumptions C06_dynamic.
+Print Assumptions C06_curdeclare.
+Print Assumptions C06_curopen.
+Print Assumptions C06_curfetch.
+Print Assumptions C06_curupdate.
+Print Assumptions C06_curdelete.
+Print Assumptions C06_curclose.
+Print Assumptions C06_optioncmd.
+Print Assumptions C06_eed_length.
+Print Assumptions C06_curinfo_length.
+Print Assumptions C06_dynamic_length.
+Print Assumptions C06_login_length.
+Print Assumptions C06_mask_roundtrip.
